@@ -430,8 +430,9 @@ def Ctx.getSubReader (c : Ctx) (t : Topic) (a : Actor) : Ctx :=
 
 /-- replyOfflineTopicGetDesc on a channel-enabled topic: as for a group topic, with the channel flag; the requester's
 subscription is looked up under the group name whichever spelling was used -/
-def Ctx.getDescOfflineC (c : Ctx) (a : Actor) (tn : TName) : Ctx :=
-  if ((tn.drop 1).toNat?.getD 0) ≥ c.w.nextT then c.emit a.sid (ctrl 400 tn) else
+def Ctx.getDescOfflineC (c : Ctx) (a : Actor) (tn : TName) (viaChn : Bool := false) : Ctx :=
+  -- a name never issued: ill-formed under the group spelling (400); under the `chn` spelling it is looked up like any other
+  if ((tn.drop 1).toNat?.getD 0) ≥ c.w.nextT ∧ !viaChn then c.emit a.sid (ctrl 400 tn) else
   let (c, ok) := c.call "TopicGet"
   if !ok then c.emit a.sid (ctrl 500 tn) else
   match c.w.row? tn with
@@ -464,7 +465,7 @@ def Ctx.opGetC (c : Ctx) (a : Actor) (tn : TName) (viaChn : Bool) (what : String
   if what ≠ "desc" ∧ what ≠ "sub" ∧ what ≠ "data" ∧ what ≠ "del" then c.emit a.sid (ctrl 400 tn) else
   if !c.w.attached a.sid tn then
     (match what with
-      | "desc" => c.getDescOfflineC a tn
+      | "desc" => c.getDescOfflineC a tn viaChn
       | "sub" => if viaChn then c.getSubOfflineReader a tn else c.getSubOffline a tn
       | _ => c.emit a.sid (ctrl 403 tn))
   else
